@@ -101,7 +101,7 @@ func checkC16(c *Ctx) {
 	r.RuleText = "C16-RT, C16-ENC, C16-DEC per unit; C16-CNT; C16-NR (not-received metric block decodes to zero fields)."
 	r.Trusted = []string{"go/ssa", "bit-provenance engine checker/bits (transfer functions of & | ^ &^ << >> conversions, + on disjoint bits, power-of-two * / %, encoding/binary big-endian accessors, copy/append on tracked buffers)", "layout tables written from the RFCs (props/layout.go)", "numeric engine for C16-CNT"}
 	r.Assume = []string{"values wider than their wire field are outside the identity claim (C08 decides whether they are rejected)"}
-	r.NotCov("StatusVectorChunk (symbol positions computed in a data-dependent loop through a map lookup), RecvDelta (scaled arithmetic: C13-SCALE/WIDTH); for the XR RLE chunk accessors only the bit selections of each return are decided, not which return is taken for which chunk type")
+	r.NotCov("StatusVectorChunk.Marshal (symbol positions computed in a data-dependent loop through a map lookup; its decoder IS decided), RecvDelta (scaled arithmetic: C13-SCALE/WIDTH); for the XR RLE chunk accessors only the bit selections of each return are decided, not which return is taken for which chunk type")
 
 	runs := runLayouts(c, c16Units...)
 	for _, name := range c16Units {
@@ -119,7 +119,7 @@ func checkC16(c *Ctx) {
 			r.Unk("C16-RT", name+"/analysable", pos, fmt.Sprintf("encoder: %v; decoder: %v", lr.encErr, lr.decErr))
 			continue
 		}
-		n, bad := roundTrip(lr.enc, lr.dec, lr.u.decAlt)
+		n, bad := roundTrip(lr.enc, lr.dec, lr.u.decAlt, layoutFields(lr.u))
 		r.Check(len(bad) == 0 && n > 0, "C16-RT", name+"/encode-decode-identity", pos, fmt.Sprintf("%d bit correspondences: every encoded field bit is decoded from the octet/bit it was written to, and vice versa", n), trunc(bad, 3))
 		n, bad = encVsSpec(lr.u, lr.enc)
 		r.Check(len(bad) == 0 && n > 0, "C16-ENC", name+"/encoder-matches-"+strings.Fields(lr.u.rfc)[0]+strings.Fields(lr.u.rfc)[1], pos, fmt.Sprintf("%d wire bits equal the layout of %s", n, lr.u.rfc), trunc(bad, 3))
@@ -130,7 +130,22 @@ func checkC16(c *Ctx) {
 		n, bad = decVsSpec(lr.u, lr.dec)
 		r.Check(len(bad) == 0 && n > 0, "C16-DEC", name+"/decoder-matches-"+strings.Fields(lr.u.rfc)[0]+strings.Fields(lr.u.rfc)[1], dpos, fmt.Sprintf("%d field bits equal the layout of %s", n, lr.u.rfc), trunc(bad, 3))
 	}
-	r.Floor("C16-UNIT", 7)
+	r.Floor("C16-UNIT", 9)
+	// StatusVectorChunk: decoder side only (the encoder places symbols through a data-dependent shift)
+	for _, name := range []string{"StatusVectorChunk/one-bit", "StatusVectorChunk/two-bit"} {
+		lr := runLayouts(c, name)[name]
+		if lr == nil || lr.decErr != nil || lr.dec == nil {
+			r.Unk("C16-DEC", name+"/analysable", "-", fmt.Sprint(lr))
+			continue
+		}
+		r.Anchor("C16-UNIT", name)
+		dpos := "-"
+		if fn := p.Func(lr.u.dec); fn != nil {
+			dpos = p.Pos(fn.Pos())
+		}
+		n, bad := decVsSpec(lr.u, lr.dec)
+		r.Check(len(bad) == 0 && n > 0, "C16-DEC", name+"/decoder-matches-"+unitKey(lr.u), dpos, fmt.Sprintf("%d field bits equal the layout of %s (the two constant-trip loops are unrolled)", n, lr.u.rfc), trunc(bad, 3))
+	}
 	// not-received metric block: canonical zero fields
 	if lr := runs["CCFeedbackMetricBlock"]; lr != nil && lr.dec != nil {
 		ok := false
